@@ -454,11 +454,23 @@ pub fn run_histories_ext(run: &mut Run, args: &Args, prop_salt: u64, histories: 
             if res.is_err() {
                 let (loc, msg) = kvcore::run::take_last_panic().unwrap_or_default();
                 acc.count("panic_in_history");
-                if kvcore::run::panic_in_kanidm(&loc) && loc.contains("plugins/spn.rs") && hooks.verify_sig.map(|s| !s.starts_with("c22")).unwrap_or(true) {
-                    acc.count("cross.c22.panic_in_spn_verify");
+                // a debug assertion of kanidm itself fired: it is a finding of the property it speaks
+                // about, and a cross observation in every other check
+                let owner = if loc.contains("plugins/spn.rs") { "c22" }
+                    else if loc.contains("plugins/memberof.rs") { "c17" }
+                    else if loc.contains("plugins/refint.rs") { "c16" }
+                    else if loc.contains("/be/") { "c03" }
+                    else if loc.contains("plugins/attrunique.rs") || loc.contains("plugins/base.rs") { "c19" }
+                    else if loc.contains("/repl/") { "c08" }
+                    else { "" };
+                let me = hooks.verify_sig.unwrap_or("dirsim").split('/').next().unwrap_or("dirsim");
+                if kvcore::run::panic_in_kanidm(&loc) && owner != me {
+                    acc.count(&format!("cross.{}.panic_in_kanidm", if owner.is_empty() { "other" } else { owner }));
+                    acc.observe("kanidm_debug_assertions_fired", &format!("{loc}: {msg}"));
                 } else if kvcore::run::panic_in_kanidm(&loc) {
+                    let short = loc.rsplit('/').next().unwrap_or("").replace(':', "-");
                     acc.violation(
-                        &format!("{}/panic-in-kanidm", hooks.verify_sig.unwrap_or("dirsim").split('/').next().unwrap_or("dirsim")),
+                        &format!("{me}/panic-in-kanidm/{short}"),
                         json!({"panic": msg, "location": loc, "history_seed": seed_info}),
                     );
                 } else if loc.contains("/.cargo/registry/") {
